@@ -279,6 +279,34 @@ def check_cache(ctx, R="C03.cache"):
         ctx.finding(R, fn, "cache entry mismatch", "approxBoundFootprint stores a (centre, height) that is not the one its cached prism was built with")
 
 
+def check_precision(ctx, R="C03.precision"):
+    ctx.rule(
+        R,
+        "geometry that samples are drawn from is computed in double precision: the geometry / region / vector modules never narrow "
+        "coordinates to float32 / float16 (dtype arguments, astype, *_float32 routines); a single-precision triangulation moves the "
+        "vertices of a polygon with large coordinates (UTM-like maps) by up to a decimetre, so sampled points fall outside the region",
+    )
+    model = ctx.model
+    n = 0
+    NARROW = ("float32", "float16", "single", "half")
+    for mn in ("scenic.core.geometry", RG, "scenic.core.vectors", "scenic.core.shapes", "scenic.core.utils"):
+        if not model.has_module(mn):
+            continue
+        m = model.module(mn)
+        hits = []
+        for node in ast.walk(m.tree):
+            if isinstance(node, ast.Attribute) and (node.attr in NARROW or node.attr.endswith(("_float32", "_float16"))):
+                hits.append(node)
+            elif isinstance(node, ast.Constant) and isinstance(node.value, str) and node.value in NARROW and isinstance(parent(node), (ast.Call, ast.keyword)):
+                hits.append(node)
+        n += 1
+        if not hits:
+            ctx.ok(R, m.path, f"{mn}: no narrowing to single precision", qualname=mn)
+        for h in hits:
+            ctx.finding(R, h, f"{lib.qualname_of(h)}: single precision {norm_text(h, 40)}", f"{lib.qualname_of(h)}: `{norm_text(lib.statement_of(h), 80)}` computes geometry in single precision: with coordinates of magnitude 1e5-1e6 the rounding error is centimetres to decimetres, and points sampled from the resulting pieces lie outside the region")
+    ctx.floor(R, n, 3, "geometry modules scanned")
+
+
 def sampler_scope(mname, subname):
     return mname in ("genericSampler", "uniformPointInner") or subname == "sampler"
 
@@ -290,5 +318,6 @@ def check(ctx):
     check_height(ctx)
     check_rays(ctx)
     check_cache(ctx)
+    check_precision(ctx)
     n = rk.check_operand_interface(ctx, "C03.operand", scope=sampler_scope)
     ctx.floor("C03.operand", n, 3, "operand attribute reads in sampler code")
